@@ -86,7 +86,10 @@ func Run(c *vh.Ctx) {
 		c.Res.Rule = "inputs: every file of the tests/+examples/ corpus in both lexing modes; seeded mutants of corpus files (CRLF, multi-byte and raw bytes, heredocs, interpolation, inline HTML, truncation, deletion, duplication); snippet-built programs and their mutants; all 1- and 2-byte strings over a boundary alphabet. non-trivial = input yields at least 3 top-level tokens; distinct = distinct (mode, input bytes)"
 		// past failures and the replays of the known findings run first
 		for _, pf := range [][2]string{{"s", "#!a\nx"}, {"s", "\\ App"}, {"s", "\\\xe3"}, {"s", "$a;\n// c\r\n$b"}, {"s", "b'a\nb'; $x;"},
-			{"t", "<?php $a;\n// c\r\n$b"}, {"s", "\\class\\use\\Foo::x()"}, {"t", "<?php \\ ?>abc<?php \\x"}, {"t", "<?php echo \"1\"; \\ ?>abc<?php echo \"2\";"}, {"s", "<<<X\nabc \"q\" $x"}} {
+			{"t", "<?php $a;\n// c\r\n$b"}, {"s", "\\class\\use\\Foo::x()"}, {"t", "<?php \\ ?>abc<?php \\x"}, {"t", "<?php echo \"1\"; \\ ?>abc<?php echo \"2\";"}, {"s", "<<<X\nabc \"q\" $x"},
+			{"s", "$n = 1;\n$i = <<<MSG\nHello, $n!\nMSG;"}, {"t", "<?php\n$i = <<<MSG\n\n\nHello, {$n}\nMSG;\n$x"},
+			{"s", "$a = 1;\n$h = <<<EOT\nx\ry\nhello $a\nEOT;\n"}, // known: frag:line:heredoc-lone-cr
+			{"s", "$s = \"标题：这是一个很长的中文标题\n{$o->nope()} end\";"}, {"s", "$h = <<<EOT\n中文中文中文中文\n\nsecond {$o->nope()} line $a\nEOT;\n"}} { // 7866f92: heredoc with interpolation carried the line of its body
 			add("past", pf[0], pf[1])
 		}
 		corpus := lexh.Corpus(c.Repo)
@@ -181,6 +184,20 @@ func Run(c *vh.Ctx) {
 				if !seen[sig] {
 					seen[sig] = true
 					c.Violation(sig, lv.Law+" law: "+lv.What, cs)
+				}
+			}
+		}
+		// 1b. interpolation fragments (children; not modelled): line of every uniquely locatable fragment
+		if strings.Contains(src, "$") || strings.Contains(src, "@{") {
+			fv, nfrag := fragLaws(cs.Mode, src)
+			if nfrag > 0 {
+				c.Hit("frag:inputs-with-located-fragments")
+			}
+			seenF := map[string]bool{}
+			for _, v := range fv {
+				if !seenF[v.Sig] {
+					seenF[v.Sig] = true
+					c.Violation(v.Sig, v.What, cs)
 				}
 			}
 		}
